@@ -44,9 +44,14 @@ CommonFS == <<
   Dir(<<>>), Dir(R), Dir(B), Dir(P("sub")), Dir(<<"R", "baseX">>), Dir(<<"R", "out">>),
   File(P("in.bin"), 1), File(<<"R", "base", "sub", "in2.bin">>, 2),
   File(<<"R", "baseX", "in.bin">>, 3), File(<<"R", "out", "secret">>, 4),
+  \* a sibling whose name differs from base's only by letter case (the file systems here are case sensitive)
+  Dir(<<"R", "BASE">>), File(<<"R", "BASE", "in.bin">>, 6),
   File(P("m.onnx"), 9),
   File(<<"R", "top">>, 5),   \* a file in the parent of base: reached by "<directory link that leaves base>/../top"
-  Link(<<"R", "lbase">>, <<"base">>) >>
+  Link(<<"R", "lbase">>, <<"base">>),
+  \* a link in ANOTHER directory to a sub-directory of base: "lsub/.." is base for the kernel, "." for a textual
+  \* normalisation
+  Link(<<"R", "out", "lsub">>, <<"..", "base", "sub">>) >>
 
 \* instance variants (entries added to CommonFS) and the units they add to the alphabet
 Variant == <<
@@ -69,7 +74,7 @@ Variant == <<
 VariantUnits == <<
   <<>>, <<"lf_in", "lf_out">>, <<"lf_in", "lf_out">>, <<"ld_in", "ld_out">>, <<"hl", "hl_in">>,
   <<"lf2", "lf_hl", "ld_X">>, <<"ld_up", "ld_abs">> >>
-CommonUnits == <<"", ".", "..", "in.bin", "sub", "in2.bin", "base", "baseX", "out", "secret",
+CommonUnits == <<"", ".", "..", "in.bin", "sub", "in2.bin", "base", "baseX", "BASE", "out", "secret",
                  "lbase", "nx", "top", "ABS">>
 
 MCEntries == [i \in DOMAIN Variant |-> CommonFS \o Variant[i]]
@@ -99,7 +104,8 @@ MCSpell == <<
   SpLoad("via-symlink-abs", R, <<"", "R", "lbase", "m.onnx">>),      \* 16 the same, absolute
   SpLoad("non-normalised", B, <<"sub", "..", "m.onnx">>),           \* 17 not normalised
   SpLoad("doubled-sep", R, <<"base", "", "m.onnx">>),            \* 18 doubled separator
-  SpDirect("other-dir", R, <<"", "R", "out">>)                 \* 19 another directory (protocol mode only)
+  SpDirect("other-dir", R, <<"", "R", "out">>),                \* 19 another directory (protocol mode only)
+  SpLoad("via-dirlink-dotdot", <<"R", "out">>, <<"lsub", "..", "m.onnx">>)   \* 20 <link to a sub-directory>/..  (cwd elsewhere)
 >>
 
 ProtoLoc == << <<"in.bin">>, <<"..", "out", "secret">>, <<"secret">>, <<"lf_out">>, <<"lf_in">>, <<"nx">> >>
